@@ -118,9 +118,9 @@ deriving Repr, DecidableEq
 def TokCfg.code : TokCfg := ⟨false, false⟩
 /-- with the proposed fixes (item 14; `q:xmlns` is an ordinary attribute) -/
 def TokCfg.fixed : TokCfg := ⟨true, true⟩
-/-- ***SWITCH***: what the drivers (correspondence) run.  Set to `TokCfg.fixed` (or a mixture) once
-the fix is committed in /repo. -/
-def TokCfg.current : TokCfg := TokCfg.code
+/-- ***SWITCH***: what the drivers (correspondence) run = what /repo does now.  `TokCfg.code` until
+/repo commit 7cefeea ("tokenizer duplicate test on qualified name"), `TokCfg.fixed` since. -/
+def TokCfg.current : TokCfg := TokCfg.fixed
 
 def isDeclName (cfg : TokCfg) (n : RName) : Bool :=
   (n.loc == sXmlns && (!cfg.frontNeedsNoPrefix || n.pfx == none)) || n.pfx == some sXmlns
@@ -203,8 +203,9 @@ deriving Repr, DecidableEq
 
 def TbCfg.code : TbCfg := ⟨false⟩
 def TbCfg.fixed : TbCfg := ⟨true⟩
-/-- ***SWITCH***: what the drivers (correspondence) run -/
-def TbCfg.current : TbCfg := TbCfg.code
+/-- ***SWITCH***: what the drivers (correspondence) run = what /repo does now.  `TbCfg.code` until
+/repo commit c6f2538 ("tree builder filters"), `TbCfg.fixed` since. -/
+def TbCfg.current : TbCfg := TbCfg.fixed
 
 /-- the filter of `process_namespaces` (mod.rs:331-334 / 339-342) -/
 def isDeclLike (cfg : TbCfg) (a : RAttr) : Bool :=
